@@ -11,17 +11,23 @@ PROP = "C11"
 
 TRUSTED = [
     "Coq 8.16.1 kernel (coqc), vm_compute for case evaluation; no native_compute",
+    "hand-written byte/rune-level model props/C11/coq/ModelLex.v: SeqQL lexer (Next, unquotePrefix, unquoteChar,"
+    " strconv.UnquoteChar, QuotedPrefix), composite tokens, one-field-filter part of ParseSeqQL (plain, in(...), range),"
+    " legacy scanner (parseSimpleTerm, parseQuotedTerms, parseTerms, keyword/text builders) and the seven literal"
+    " renderers of the harness (tied to /repo by the classes lex-*, qtext-*, roundtrip-*; the harness text must equal"
+    " the model renderer's text byte for byte)",
     "hand-written byte-level model props/C11/coq/Model.v + ModelDoc.v: keyword/text/path tokenizers, toLowerTryInplace,"
     " indexer.Index/decodeInternal/decodeTags/index over an abstract JSON tree (in-place lower-casing threaded from one"
     " title of a multi-type field to the next), parseSeqQLKeyword/parseSeqQLText, the legacy keyword/text token"
     " builders, strings.ToLower/bytes.Map, utf8.DecodeRune/AppendRune (tied to /repo by the correspondence run)",
-    "props/C11/coq/Consts.v: unicode.IsLetter/IsNumber/ToLower of the Go toolchain, dumped by `hC11 -consts`"
+    "props/C11/coq/Consts.v: unicode.IsLetter/IsNumber/ToLower/IsSpace/IsDigit of the Go toolchain, dumped by `hC11 -consts`"
     " on every run (data, not axioms; the oracle hypotheses of the theorems are re-proved over it by vm_compute)",
     "Go harness harness/cmd/hC11 (generators, quoting functions for the five SeqQL literal styles and the two legacy"
-    " ones, rendering of observations); export file /repo/proxy/bulk/export_verif_c11.go",
-    "SeqQL lexer / legacy quoted-term scanner (unquoting) and insaneJSON (decoding, unescaping, Encode of containers):"
-    " NOT modelled; every quoting style is validated on the real parsers by the cases, the JSON tree given to the"
-    " model is the one insaneJSON decodes",
+    " ones, rendering of observations); export files /repo/proxy/bulk/export_verif_c11.go, /repo/parser/export_verif_c11.go",
+    "insaneJSON (decoding, unescaping, Encode of containers): NOT modelled; the JSON tree given to the model is the one"
+    " insaneJSON decodes. Query-text round trip PROVED only for the double-/single-quoted styles in the plain position;"
+    " back-quoted, bare, escape-choice styles, in(...)/range positions at text level and the legacy forms are modelled"
+    " and validated on the real lexer/parsers by the cases",
     "end-to-end search (tests/setup single-mode ingestor + store, both parsers) is a per-run sample with a negative"
     " control: a test, not a proof",
 ]
@@ -30,7 +36,10 @@ ASSUME = [
     " (otherwise the known finding cs-invalid-utf8: index keeps raw bytes, both query parsers re-encode them as U+FFFD)",
     "multi-type fields, case-insensitive mode, titles after the first: the theorem speaks about the value as that"
     " title's tokenizer sees it (after earlier in-place lower-casing); invariance of its tokens under that"
-    " lower-casing is checked by the correspondence run only (named gap C11_multitype_later_titles)",
+    " lower-casing (C11_multitype_inplace_invariant) is NOT proved: class multitype checks on the real bulk processor"
+    " that every title's tokens equal the real tokenizer's tokens on a fresh copy of the original value",
+    "query text theorems: the value (word, path) is valid UTF-8 and free of U+E000; the field name is written bare"
+    " ([A-Za-z0-9_.]+, not `not`); tokens that alias the shared value buffer are observed after all titles ran",
     "the matcher is read at specification level (literal = equality, wildcard = ordered substrings); pattern.go"
     " itself is property C13",
 ]
@@ -46,7 +55,14 @@ RULE = ("random values over ASCII word/separator/quote characters, letters and n
         " tag arrays, nested arrays, multi-type fields, type/value mismatches, tags without value) through the real bulk"
         " processor: all metas compared with the model, `_exists_:<title>` queried in the plain, in(...) and range forms with the parser"
         " in case-insensitive and case-sensitive mode. End to end: documents through a real ingestor + store, every named query through both parsers must"
-        " return the document. non-trivial = value has a non-ASCII byte, an upper-case letter, a"
+        " return the document. Extension streams: (roundtrip) values dense in quote kinds, backslash, `*`, space, tab, newline,"
+        " `:`, parentheses, brackets, `|`, multi-byte runes, U+FFFD, very long values, rendered in every style (the random"
+        " escape choices recorded and replayed by the model's renderer) at the plain / in(...) with other members / range"
+        " position or in the legacy quoted/bare form: the real parser's literal must be the one text term equal to a token the"
+        " real tokenizer emitted; (lex) the real lexer's complete token stream on rendered and free texts; (qtext) mostly"
+        " well-formed and malformed query texts (bad escapes, unterminated quotes, comments, stray delimiters, invalid UTF-8)"
+        " through both real parsers; (multitype) the real bulk processor on {k: v} with 2-4 titles in permuted order, small"
+        " size limits, values with length-preserving and length-changing upper-case runes and invalid bytes. non-trivial = value has a non-ASCII byte, an upper-case letter, a"
         " quote/backslash/'*'/'_'/'/' or is cut by a size limit, is not skipped and yields at least one query /"
         " document with a container field and more than 3 tokens; distinct by input")
 
